@@ -100,8 +100,12 @@ class PipelineRunner:
 
     def _inject_input(self, name: str, types: set[type] | None, required: bool) -> None:
         val = self.inputs.get(name, None)
-        if val is None and required and types and not is_compatible_data(None, *types):
-            raise PipelineError(f"input {name} not specified")
+        if val is None and types and not is_compatible_data(None, *types):
+            if required:
+                raise PipelineError(f"input {name} not specified")
+            # only optional consumers so far: leave the node without a value,
+            # so a later required use still reports the missing input
+            return
 
         if val is not None and types and not is_compatible_data(val, *types):
             raise TypeError(f"invalid data for input {name} (expected {types}, got {type(val)})")
